@@ -5,8 +5,11 @@ package main
 //   vh cost <entry> <family> <k>        (k = number of repeated elements; prints JSON with the input size)
 
 import (
+	"bufio"
+	"encoding/json"
 	"fmt"
 	"os"
+	"runtime"
 	"strconv"
 	"strings"
 
@@ -75,6 +78,9 @@ func init() {
 		}
 		status := "ok"
 		note := ""
+		var m0, m1 runtime.MemStats
+		runtime.GC()
+		runtime.ReadMemStats(&m0)
 		switch args[0] {
 		case "tokenize":
 			tk, _ := tokenizer.New()
@@ -130,7 +136,43 @@ func init() {
 		default:
 			return 2
 		}
-		emitJSON(map[string]interface{}{"entry": args[0], "family": args[1], "k": k, "bytes": len(sql), "status": status, "note": note})
+		runtime.ReadMemStats(&m1)
+		emitJSON(map[string]interface{}{"entry": args[0], "family": args[1], "k": k, "bytes": len(sql), "status": status, "note": note,
+			"alloc_bytes": m1.TotalAlloc - m0.TotalAlloc, "mallocs": m1.Mallocs - m0.Mallocs})
+		return 0
+	}
+}
+
+// locq: stdin JSON lines {"sql":..., "queries":[offsets...]}: tokenize, then ask the real position conversion for the
+// offsets in the given order (the resume point is exercised forwards and backwards); prints the line table, the tab
+// offsets and the answers (tie of Model/Cost.v to the code).
+func init() {
+	subcmds["locq"] = func(args []string) int {
+		sc := bufio.NewScanner(os.Stdin)
+		sc.Buffer(make([]byte, 1<<20), 64<<20)
+		tk, _ := tokenizer.New()
+		for sc.Scan() {
+			var in struct {
+				SQL     string `json:"sql"`
+				Queries []int  `json:"queries"`
+			}
+			if json.Unmarshal(sc.Bytes(), &in) != nil {
+				continue
+			}
+			tk.Tokenize([]byte(in.SQL)) // a lexical error still leaves input and line table in place
+			var ans [][2]int
+			for _, q := range in.Queries {
+				l := tk.VerifLoc(q)
+				ans = append(ans, [2]int{l.Line, l.Column})
+			}
+			var tabs []int
+			for i := 0; i < len(in.SQL); i++ {
+				if in.SQL[i] == '\t' {
+					tabs = append(tabs, i)
+				}
+			}
+			emitJSON(map[string]interface{}{"len": tk.VerifInputLen(), "starts": tk.VerifLineStarts(), "tabs": tabs, "answers": ans})
+		}
 		return 0
 	}
 }
